@@ -464,7 +464,8 @@ def replay_x1(res, prep, path):
 def check(res, tier, replay=None):
     res.cov["rule"] = (
         "X1: random networks (2-8 raw channels single/stack with dup/ignoredup props, 1-4 muxes of kind index "
-        "(1-6 inputs) / running / active, shared selects, defaults, track_connect_thread tracks; 30% 'wild': chained, "
+        "(1-6 inputs) / running / active, shared selects, defaults, track_connect_thread tracks and connect_cpu-style "
+        "tracks (track_init/track_set_select/track_set_input/mux_set_default); 30% 'wild': chained, "
         "shared outputs, select used as own input, user writes to outputs), 3-13 rounds of several writes in random "
         "order (select+input in the same round half of the time, double writes, bad pops, out-of-range selects) then "
         "bay_propagate; after every round all channels (value, last_value, dirty, depth), every mux's selected index "
@@ -476,6 +477,13 @@ def check(res, tier, replay=None):
         "emulator; every thread and CPU row of every model channel recomputed from the raw history "
         "(emu_props.oracle_views) and CPU rows from thread rows. non-trivial = at least one successful propagate on a "
         "network with a mux / at least one event; distinct by script")
+    res.cov["modelled_not_verified"] = [
+        "channel names / uthash lookup (ids are positions), bay->state, VALUE_DOUBLE are not modelled",
+        "bay_chan.is_dirty is never set by bay.c, so its guards are dead code and are not modelled",
+        "model_cpu.c / model_thread.c loops are modelled by Bay.trackThread / Bay.trackCpu (one step per channel); "
+        "their composition over all threads/CPUs/channels is covered by theorem topology_frame (any number of steps) "
+        "and, on the real code, only by X2",
+    ]
     res.assumptions = [
         "utlist DL_APPEND/DL_DELETE/DL_FOREACH behave as an ordered list with deletion of non-current elements (modelled)",
         "a failed bay_propagate ends the emulation (no state is compared after it)",
